@@ -191,7 +191,7 @@ def history(p, lib):
 
     def run_sync(hist, client, log_of, set_script, decode):
         pages, all_items = make_pages(p, a, hist)
-        for mode in ('pages', 'items'):
+        for mode in ('pages', 'items') + (('items-after-get',) if kind == 'map' else ()):
             set_script(pages)
             try:
                 pager = getattr(client, a['py'])(request=dict(init), timeout=TIMEOUT, metadata=[META])
@@ -215,6 +215,13 @@ def history(p, lib):
                     if not same_items(got_all, pages):
                         fail(hist, mode, len(pages), 'items', f'{got_all} != {all_items}')
                 else:
+                    if mode == 'items-after-get':
+                        # looking a key up in the current page (a key of a later page, an absent key) leaves the cursor alone
+                        later = [k for _, items in pages[1:] for k, _ in items][:1] + ['no-such-key']
+                        for k_ in later:
+                            pager.get(k_)
+                        if len(log_of()) != 1:
+                            fail(hist, mode, 0, 'get-fetched-pages', f'{len(log_of())} fetches after get() on a fresh pager')
                     got_all = [item_view(kind, x) for x in pager]
                     if not same_items(got_all, pages):
                         fail(hist, mode, len(pages), 'items', f'{got_all} != {all_items}')
